@@ -10,10 +10,12 @@ package traversalrecord
 //@ -- shape of the record tree, stated edge by edge (so shared or repeated nodes need no special case):
 //@ -- every node owns its segment index, every child entry is a real link object holding a real node, the index and
 //@ -- the child list agree, and a childless child carries a link
-//@ pred isT(t *TraversalRecord) := t != nil && isalloc(t) && dyntype(t) == typetag("*TraversalRecord")
+//@ ghost recNodes set[ref]     -- the record nodes made so far (by NewTraversalRecord); a footprint, so that allocations by unrelated code cannot add to it
+//@ pred isT(t *TraversalRecord) := t != nil && isalloc(t) && recNodes[t]
 //@ pred isL(l *traversalLink) := l != nil && isalloc(l) && dyntype(l) == typetag("*traversalLink")
 //@ pred nodeOK(c *TraversalRecord) := len(c.children) > 0 || c.link != nil
-//@ pred shapeM() := forall t *TraversalRecord :: isT(t) ==> t.childSegments != nil && isalloc(t.childSegments)
+//@ pred shapeM() := (forall t *TraversalRecord :: isT(t) ==> t.childSegments != nil && isalloc(t.childSegments))
+//@    && (forall t ref :: recNodes[t] ==> isalloc(t))
 //@ pred shapeU() := forall t *TraversalRecord, u *TraversalRecord :: isT(t) && isT(u) && t != u ==> t.childSegments != u.childSegments
 //@ pred shapeK() := forall t *TraversalRecord, j int :: isT(t) && slo(t.children) <= j && j < shi(t.children) ==>
 //@      isL(sat(t.children, j)) && isT(sat(t.children, j).TraversalRecord) && sat(t.children, j).segment in t.childSegments && t.childSegments[sat(t.children, j).segment] == j - slo(t.children)
@@ -26,9 +28,9 @@ package traversalrecord
 //@ func NewTraversalRecord
 //@   requires treeShape()
 //@   modifies alloc, allmaps("map[datamodel.PathSegment]int")
+//@   ghost recNodes := add(old(recNodes), result)
 //@   ensures isT(result) && fresh(result) && len(result.children) == 0 && result.link == nil && treeShape()
 //@   ensures forall t *TraversalRecord :: old(isalloc(t)) ==> t.children == old(t.children) && t.link == old(t.link)
-//@   ensures forall t *TraversalRecord :: isT(t) && !old(isalloc(t)) ==> t == result
 
 //@ -- recording only ever adds: nodes keep their children (more may be appended), their segment index entries and a link once set
 //@ pred grewOnly() := (forall t *TraversalRecord :: old(isT(t)) ==> slo(t.children) == old(slo(t.children)) && shi(t.children) >= old(shi(t.children)))
@@ -39,7 +41,7 @@ package traversalrecord
 
 //@ func TraversalRecord.RecordNextStep
 //@   requires isT(tr) && treeShape() && leavesLinkedBut(tr)
-//@   modifies alloc, TraversalRecord.link, TraversalRecord.successful, TraversalRecord.children, TraversalRecord.childSegments, traversalLink.segment, traversalLink.TraversalRecord, allmaps("map[datamodel.PathSegment]int")
+//@   modifies alloc, recNodes, TraversalRecord.link, TraversalRecord.successful, TraversalRecord.children, TraversalRecord.childSegments, traversalLink.segment, traversalLink.TraversalRecord, allmaps("map[datamodel.PathSegment]int")
 //@   callsite TraversalRecord.RecordNextStep: assert len(tr.children) > 0 && isT(self)
 //@   ensures treeShape() && leavesLinked() && nodeOK(tr)
 //@   ensures grewOnly()
